@@ -268,3 +268,96 @@ Example ex_checkpoint :
   ex_ckpt [ex_line ex_name (ex_keyhash ex_name 7) 8] = Bad ECkInvalidSig /\
   checkpoint ih ih_eqb ex_keyhash 7 None = Bad EFetch.
 Proof. vm_compute. repeat split; reflexivity. Qed.
+
+(* ---- the tile hash reader PINNED by /repo's go.mod does NOT meet the specification ------------------ *)
+(* Client/Reader.v with fixed = false is the loop of golang.org/x/mod <= v0.37.0. Witness: a tree of
+   259 = 256 + 2 + 1 leaves. The tree-hash decomposition has three subtree roots but only two tiles
+   (tile/1/000.p/1 and tile/0/001.p/3), so the first tile planned for the requested indexes, the full
+   tile/0/000, is never compared with its parent. The server replaces leaf 5 in data tile 000 and
+   writes the forged leaf's hash into slot 5 of tile/0/000: the iterator yields the forged entry. *)
+From SL Require Import Client.Reader.
+
+Definition wleaf (i : N) : leaf :=
+  mkLeaf [byte_of_N i] false (zeros 32) [] [] (Z.of_N i) false 1700000000000.
+Definition wL : list leaf := map (fun j => wleaf (N.of_nat j)) (seq 0 259).
+Definition wLH : list ih := leaf_hashes ih ileaf wL.
+Definition wroot : ih := imth wLH.
+Definition wforged : leaf :=
+  mkLeaf (s2b "forged certificate") false (zeros 32) [] [] 5 false 1700000000000.
+
+Fixpoint set_nth {A : Type} (k : nat) (x : A) (l : list A) : list A :=
+  match l, k with
+  | [], _ => []
+  | _ :: r, O => x :: r
+  | y :: r, S k' => y :: set_nth k' x r
+  end.
+
+Definition wdata (forge : bool) : nat -> N -> N -> option bytes :=
+  fun _ tn tw =>
+    if (tn =? 0) && (tw =? 256)
+    then Some (enc_tile [] (firstn 256 (if forge then set_nth 5 wforged wL else wL)))
+    else if (tn =? 1) && (tw =? 3) then Some (enc_tile [] (skipn 256 wL))
+    else None.
+
+Definition whtiles (forge : bool) : nat -> tcoord -> option (list ih) :=
+  fun _ t =>
+    if tcoord_eqb t (mkT 0 0 256)
+    then Some (firstn 256 (if forge then set_nth 5 (ileaf (mtl wforged)) wLH else wLH))
+    else if tcoord_eqb t (mkT 0 1 3) then Some (skipn 256 wLH)
+    else if tcoord_eqb t (mkT 1 0 1) then Some [imth (firstn 256 wLH)]
+    else None.
+
+Definition wadv (fixed forge : bool) : iadversary :=
+  reader_adv ih INode IEmpty ih_eqb fixed (wdata forge) (whtiles forge).
+
+Lemma w_commits : icommits 259 wroot wL.
+Proof.
+  split; [reflexivity|]. split; [reflexivity|].
+  apply Forall_forall. apply forallb_forall. vm_compute. reflexivity.
+Qed.
+
+(* both versions serve the honest log completely *)
+Example w_honest :
+  length (fst (ientries (wadv false false) false 259 wroot 0)) = 256%nat /\
+  snd (ientries (wadv false false) false 259 wroot 0) = None /\
+  length (fst (iall_entries (wadv true false) false 259 wroot 0)) = 259%nat /\
+  snd (iall_entries (wadv true false) false 259 wroot 0) = None.
+Proof. vm_compute. repeat split; reflexivity. Qed.
+
+Lemma w_forged_yielded :
+  nth_error (fst (ientries (wadv false true) false 259 wroot 0)) 5 = Some (5, wforged) /\
+  snd (ientries (wadv false true) false 259 wroot 0) = None.
+Proof. vm_compute. split; reflexivity. Qed.
+
+(* the corrected loop (x/mod v0.41.0) rejects the same server *)
+Example w_fixed_rejects :
+  ientries (wadv true true) false 259 wroot 0 = ([], Some EHashes).
+Proof. vm_compute. reflexivity. Qed.
+
+(* C12 is FALSE of the client running on the pinned reader: an entry is yielded whose covered fields
+   differ from the committed leaf's *)
+Theorem c12_entries_refuted_with_pinned_reader :
+  exists (data : nat -> N -> N -> option bytes) (htiles : nat -> tcoord -> option (list ih))
+         (n : N) (root : ih) (L : list leaf) (i : N) (e : leaf),
+    icommits n root L /\
+    In (i, e) (fst (ientries (reader_adv ih INode IEmpty ih_eqb false data htiles) false n root 0)) /\
+    exists l, nth_error L (N.to_nat i) = Some l /\ covered e <> covered l.
+Proof.
+  exists (wdata true), (whtiles true), 259, wroot, wL, 5, wforged.
+  split; [exact w_commits|]. split.
+  - eapply nth_error_In. exact (proj1 w_forged_yielded).
+  - exists (wleaf 5). split; [reflexivity|]. vm_compute. discriminate.
+Qed.
+
+(* hence that reader does not satisfy the specification the positive theorems assume *)
+Theorem pinned_reader_not_verifying : ~ iverifying (wadv false true).
+Proof.
+  intro V.
+  destruct (ientries (wadv false true) false 259 wroot 0) as [ys r] eqn:E.
+  assert (I : In (5, wforged) ys).
+  { pose proof (proj1 w_forged_yielded) as H. rewrite E in H. eapply nth_error_In. exact H. }
+  destruct (c12_entries (wadv false true) false 259 wroot wL 0 ys r 5 wforged w_commits V E I)
+    as (_ & l & Hl & Hc).
+  change (nth_error wL (N.to_nat 5)) with (Some (wleaf 5)) in Hl. inversion Hl; subst l.
+  vm_compute in Hc. discriminate.
+Qed.
